@@ -782,6 +782,9 @@ def shape_ok(model, sd, params):
     for op in sd["ops"]:
         for l in (op.get("patch") or {}).get("lines") or []:
             if l.get("v") in ("jmp", "jcc", "call") and l.get("t") and not l.get("ttemp"):
+                # a patch is assembled while the modifications are applied,
+                # i.e. before the retargets: its own operand must label code
+                targets.add(l["t"])
                 targets.add(mp.get(l["t"], l["t"]))
     # a control-flow target must not be an end-of-block label (the edge
     # would lead to the start of its block)
@@ -1216,7 +1219,9 @@ def _avoid_ambiguous(model, ops):
     ends = {}
     for oi, (key, off, length) in loc.items():
         sp = model.spans[key]
-        if off + length == sp.size and ops[oi]["k"] in ("ins", "rep", "del"):
+        if off + length == sp.size and (ops[oi]["k"] in ("ins", "rep", "del") or (ops[oi]["k"] == "delblock" and not ops[oi].get("proxy"))):
+            # (a block deleted as a whole hands its labels to the next block:
+            # the same boundary question when that block is proxied)
             ends.setdefault(key, []).append(oi)
     for key, lst in ends.items():
         sp = model.spans[key]
